@@ -91,6 +91,18 @@ func (self *StreamDecoder) Decode(val interface{}) (err error) {
 		} else {
 			s = y + s
 			e = x + s
+			// a top-level number whose digits touch the end of the buffered data
+			// may continue in the next Read: read on before accepting the frame
+			if c := self.buf[s]; c == '-' || (c >= '0' && c <= '9') {
+				n := s
+				for n < len(self.buf) && isNumberChar(self.buf[n]) {
+					n++
+				}
+				if n == len(self.buf) && self.readSome() {
+					s -= y
+					goto try_skip
+				}
+			}
 		}
 
 		// must copy string here for safety
@@ -172,6 +184,27 @@ func (self *StreamDecoder) readMore() bool {
 		// buffer has been scanned, now report any error
 		if err != nil {
 			self.setErr(err)
+			return false
+		}
+	}
+}
+
+func isNumberChar(c byte) bool {
+	return (c >= '0' && c <= '9') || c == '-' || c == '+' || c == '.' || c == 'e' || c == 'E'
+}
+
+// readSome reads until new data arrives (true) or the reader reports an error (false);
+// the error is not recorded, the reader returns it again to the next call.
+func (self *StreamDecoder) readSome() bool {
+	for {
+		l := len(self.buf)
+		realloc(&self.buf)
+		n, err := self.r.Read(self.buf[l:cap(self.buf)])
+		self.buf = self.buf[:l+n]
+		if n > 0 {
+			return true
+		}
+		if err != nil {
 			return false
 		}
 	}
